@@ -234,15 +234,23 @@ static void RunIsolateCase(long k, uint64_t cs)
 // =====================================================================================================================
 // departure (cut after every byte prefix)
 // =====================================================================================================================
-struct WitnessSpec { std::vector<std::string> subs; bool reflect; int maxItems; bool nodeA, nodeB, nodeAX, idx; };
+struct WitnessSpec { std::vector<std::string> subs; bool reflect; int maxItems; bool nodeA, nodeB, nodeAX, idx; bool slow; std::vector<std::string> meta;   // slow: 2 KB socket buffers (may be paused); meta: nodes whose names hold wildcard metacharacters
+                     WitnessSpec() : reflect(false), maxItems(0), nodeA(false), nodeB(false), nodeAX(false), idx(false), slow(false) {} };
 struct StreamSpec {
    long index; std::vector<MessageRef> msgs; std::string bytes; std::vector<size_t> starts;     // starts: frame offsets + total length
    std::vector<std::vector<std::string> > subsAfter;                                          // the leaver's subscriptions after n complete frames
    std::vector<std::map<std::string, FilterSpec> > filtAfter;                                 // ... and which of them carry a content filter
    std::vector<WitnessSpec> wit; std::string desc; size_t ioFrame;                              // ioFrame: which frame is the INSERTORDEREDDATA
-   StreamSpec() : index(-1), ioFrame(1) {}
+   long escapedSubs;                                                                            // subscriptions with an escaped-literal clause anywhere in the stream
+   std::vector<size_t> updFrames;                                                               // frames that update a node created by an earlier frame
+   StreamSpec() : index(-1), ioFrame(1), escapedSubs(0) {}
 };
-static const char * const kLeaverSubs[] = {"/*/*/*", "b", "/*/*", "a/*", "(a|b)", "mine,b", "*/x", "idx/*", "/*/*/*/*", "*", "/*", "mine", "/*/*/(mine|idx)"};
+static const char * const kLeaverSubs[] = {"/*/*/*", "b", "/*/*", "a/*", "(a|b)", "mine,b", "*/x", "idx/*", "/*/*/*/*", "*", "/*", "mine", "/*/*/(mine|idx)", "we\\*rd", "/*/*/br\\[ack\\]et", "com\\,ma,b"};
+// subscriptions whose LAST clause is unique (a literal, possibly with escaped metacharacters, or a list of such): when all subscriptions of a
+// session are like this the traversal takes the direct child-lookup path at that level instead of matching every child
+static const char * const kLeaverUniqueSubs[] = {"we\\*rd", "o\\?dd", "b", "mine", "mine,b", "com\\,ma", "pa\\(ren\\),b", "/*/*/br\\[ack\\]et", "pi\\|pe", "back\\\\slash", "st\\*r,o\\?dd", "/*/*/a/we\\*rd"};
+static const char * const kMetaSetup[] = {"we*rd", "o?dd", "com,ma", "a/we*rd"};            // created by witnesses before the leaver joins
+static const char * const kMetaLate[] = {"br[ack]et", "pa(ren)", "pi|pe", "back\\slash", "st*r", "b2"};   // created by a remaining session while the leaver is connected
 static const char * const kWitnessSubs[] = {"/*/*/*", "/*/*/*/*", "/*/*", "a", "b", "(a|b)", "a,idx", "idx/*", "*/x", "/*", "*", "/*/*/a/*", "c,b"};
 #define NEL(a) (sizeof(a) / sizeof((a)[0]))
 
@@ -251,14 +259,18 @@ static void GenStream(uint64_t seed, long s, StreamSpec & S)
    vh::Rng keep = g; g = vh::Rng(vh::case_seed(seed, STREAM_CUTGEN, (uint64_t)s));
    S = StreamSpec(); S.index = s;
    const int nw = 1 + (int)R(2);
-   for (int i = 0; i < nw; i++) { WitnessSpec w; w.subs = PickSubs(kWitnessSubs, NEL(kWitnessSubs), 2 + R(2)); w.reflect = (R(4) == 0); w.maxItems = (R(4) == 0) ? 1 + (int)R(3) : 0; w.nodeA = R(2); w.nodeB = R(4) != 0; w.nodeAX = R(2); w.idx = R(2); S.wit.push_back(w); }
+   for (int i = 0; i < nw; i++) { WitnessSpec w; w.subs = PickSubs(kWitnessSubs, NEL(kWitnessSubs), 2 + R(2)); w.reflect = (R(4) == 0); w.maxItems = (R(4) == 0) ? 1 + (int)R(3) : 0; w.nodeA = R(2); w.nodeB = R(4) != 0; w.nodeAX = R(2); w.idx = R(2);
+      for (size_t j = 0; j < NEL(kMetaSetup); j++) if (R(3) == 0) w.meta.push_back(kMetaSetup[j]);
+      if (i == 0 && R(2)) { w.slow = true; bool have = false; for (size_t j = 0; j < w.subs.size(); j++) if (CanonSub(w.subs[j]) == "*/*/*") have = true; if (!have) w.subs.push_back("/*/*/*"); }   // a slow witness sees every depth-3 node
+      S.wit.push_back(w); }
    std::vector<std::string> cur; std::vector<std::string> d; std::map<std::string, FilterSpec> curF;
    // frame 0: four nodes
    { MessageRef sd = GetMessageFromPool(PR_COMMAND_SETDATA); const char * ps[] = {"a", "a/x", "b", "idx"}; for (int j = 0; j < 4; j++) (void)sd()->AddMessage(ps[j], Payload(7, "v", (int32)R(100))); S.msgs.push_back(sd); d.push_back("SETDATA a a/x b idx"); }
    // frame 1: two ordered children
    { MessageRef io = GetMessageFromPool(PR_COMMAND_INSERTORDEREDDATA); (void)io()->AddString(PR_NAME_KEYS, "idx"); for (int j = 0; j < 2; j++) (void)io()->AddMessage("", Payload(8, "i", j)); S.msgs.push_back(io); d.push_back("INSERTORDERED idx x2"); }
    // frame 2: two subscriptions
-   { std::vector<std::string> two = (R(3) == 0) ? std::vector<std::string>() : PickSubs(kLeaverSubs, NEL(kLeaverSubs), 2); if (two.size() < 2) { two.clear(); two.push_back("/*/*/*"); two.push_back("b"); }
+   const bool uniqueOnly = (R(3) == 0);     // all of the leaver's subscriptions end in a unique clause (direct-lookup traversal)
+   { std::vector<std::string> two = uniqueOnly ? PickSubs(kLeaverUniqueSubs, NEL(kLeaverUniqueSubs), 2) : (R(3) == 0) ? std::vector<std::string>() : PickSubs(kLeaverSubs, NEL(kLeaverSubs), 2); if (two.size() < 2) { two.clear(); two.push_back("/*/*/*"); two.push_back("b"); }
      MessageRef sp = GetMessageFromPool(PR_COMMAND_SETPARAMETERS); std::string dd = "SUBSCRIBE";
      for (size_t j = 0; j < two.size(); j++) { FilterSpec f; if (R(2)) f = RandomFilter(); PutSub(*sp(), two[j], f, "w"); cur.push_back(two[j]); if (f.kind) curF[two[j]] = f; dd += (j ? " + " : " ") + two[j] + ShowFilter(f, "w"); }
      if (R(3) == 0) (void)sp()->AddBool(PR_NAME_SUBSCRIBE_QUIETLY, true); if (R(4) == 0) (void)sp()->AddBool(PR_NAME_REFLECT_TO_SELF, true);
@@ -273,24 +285,27 @@ static void GenStream(uint64_t seed, long s, StreamSpec & S)
    const uint32 wantExtra = R(4); uint32 extra = 0; size_t len = FrameStream(S.msgs).size();
    for (int tries = 0; tries < 40 && (extra < wantExtra || len < 470); tries++) {
       MessageRef m; std::vector<std::string> next = cur; std::map<std::string, FilterSpec> nextF = curF; std::string what;
-      switch (R(10)) {
+      switch ((S.wit[0].slow && extra == 0 && tries < 3) ? 10 : R(13)) {     // streams with a slow witness update a node that witness already knows
       case 0: m = GetMessageFromPool(PR_COMMAND_REMOVEDATA); { const char * kk[] = {"a", "idx/*", "*", "idx/I0"}; const char * key = kk[R(4)]; (void)m()->AddString(PR_NAME_KEYS, key); what = std::string("REMOVEDATA ") + key; } break;
       case 1: m = GetMessageFromPool(PR_COMMAND_GETDATA); (void)m()->AddString(PR_NAME_KEYS, "/*/*/*"); what = "GETDATA /*/*/*"; break;
       case 2: m = GetMessageFromPool(PR_COMMAND_SETDATA); { const char * p = R(2) ? "c" : "a/x/deep"; (void)m()->AddMessage(p, Payload(9, "v", (int32)R(100))); what = std::string("SETDATA ") + p; } break;
       case 3: m = GetMessageFromPool(PR_COMMAND_REORDERDATA); (void)m()->AddString("idx/I1", "I0"); what = "REORDER idx/I1<I0"; break;
-      case 4: { std::vector<std::string> one = PickSubs(kLeaverSubs, NEL(kLeaverSubs), 1, cur); if (one.empty()) continue; m = GetMessageFromPool(PR_COMMAND_SETPARAMETERS); FilterSpec f; if (R(2)) f = RandomFilter(); PutSub(*m(), one[0], f, "w"); next.push_back(one[0]); if (f.kind) nextF[one[0]] = f; what = "SUBSCRIBE " + one[0] + ShowFilter(f, "w"); } break;
+      case 4: { std::vector<std::string> one = uniqueOnly ? PickSubs(kLeaverUniqueSubs, NEL(kLeaverUniqueSubs), 1, cur) : PickSubs(kLeaverSubs, NEL(kLeaverSubs), 1, cur); if (one.empty()) continue; m = GetMessageFromPool(PR_COMMAND_SETPARAMETERS); FilterSpec f; if (R(2)) f = RandomFilter(); PutSub(*m(), one[0], f, "w"); next.push_back(one[0]); if (f.kind) nextF[one[0]] = f; what = "SUBSCRIBE " + one[0] + ShowFilter(f, "w"); } break;
       case 5: { if (cur.empty()) continue; const size_t wh = R((uint32)cur.size()); m = GetMessageFromPool(PR_COMMAND_REMOVEPARAMETERS); (void)m()->AddString(PR_NAME_KEYS, EscapeRegexTokens(String(("SUBSCRIBE:" + cur[wh]).c_str()))); what = "UNSUBSCRIBE " + cur[wh]; nextF.erase(cur[wh]); next.erase(next.begin() + wh); } break;
       case 6: m = GetMessageFromPool(PR_COMMAND_PING); (void)m()->AddInt32("n", (int32)R(1000)); what = "PING"; break;
       case 7: case 8: { if (cur.empty()) continue; const std::string & pat = cur[R((uint32)cur.size())];        // same subscription again with another filter (or none): the path set stays
                  FilterSpec f; if (!curF.count(pat) || R(3)) f = RandomFilter(); m = GetMessageFromPool(PR_COMMAND_SETPARAMETERS); PutSub(*m(), pat, f, "w");
                  if (f.kind) nextF[pat] = f; else nextF.erase(pat); what = "REFILTER " + pat + ShowFilter(f, "w"); } break;
-      default: { std::vector<std::string> one = PickSubs(kLeaverSubs, NEL(kLeaverSubs), 1, cur); if (one.empty()) continue; m = GetMessageFromPool(PR_COMMAND_BATCH);
+      case 10: case 11: m = GetMessageFromPool(PR_COMMAND_SETDATA); { const char * kk[] = {"a", "b", "a/x"}; const char * key = kk[R(3)]; (void)m()->AddMessage(key, Payload(7, "v", 100 + (int32)R(100))); what = std::string("UPDATE ") + key; } break;   // a node the witnesses already know
+      default: { std::vector<std::string> one = uniqueOnly ? PickSubs(kLeaverUniqueSubs, NEL(kLeaverUniqueSubs), 1, cur) : PickSubs(kLeaverSubs, NEL(kLeaverSubs), 1, cur); if (one.empty()) continue; m = GetMessageFromPool(PR_COMMAND_BATCH);
                  MessageRef a = GetMessageFromPool(PR_COMMAND_SETDATA); (void)a()->AddMessage("d", Payload(9, "v", (int32)R(100))); (void)m()->AddMessage(PR_NAME_KEYS, a);
                  MessageRef b = GetMessageFromPool(PR_COMMAND_SETPARAMETERS); FilterSpec f; if (R(2)) f = RandomFilter(); PutSub(*b(), one[0], f, "w"); (void)m()->AddMessage(PR_NAME_KEYS, b); next.push_back(one[0]); if (f.kind) nextF[one[0]] = f; what = "BATCH{SETDATA d, SUBSCRIBE " + one[0] + ShowFilter(f, "w") + "}"; } break;
       }
       const size_t add = Frame(*m()).size(); if (len + add > 700) continue;
+      if (what.compare(0, 7, "UPDATE ") == 0) S.updFrames.push_back(S.msgs.size());
       S.msgs.push_back(m); cur = next; curF = nextF; S.subsAfter.push_back(cur); S.filtAfter.push_back(curF); len += add; extra++; d.push_back(what);
    }
+   { std::set<std::string> all; for (size_t i = 0; i < S.subsAfter.size(); i++) for (size_t j = 0; j < S.subsAfter[i].size(); j++) if (S.subsAfter[i][j].find('\\') != std::string::npos) all.insert(S.subsAfter[i][j]); S.escapedSubs = (long)all.size(); }
    S.bytes = FrameStream(S.msgs, &S.starts);
    if (S.bytes.size() < 470 || S.bytes.size() > 700) Abort(vh::fmt("generated stream has %zu bytes, wanted 470..700", S.bytes.size()));
    if (S.subsAfter.size() != S.msgs.size() + 1 || S.filtAfter.size() != S.subsAfter.size()) Abort("subscription model out of step with the frames");
@@ -302,25 +317,38 @@ static void GenStream(uint64_t seed, long s, StreamSpec & S)
 static std::vector<long> g_cum(1, 0);   // g_cum[s] = first case of stream s
 static void Locate(uint64_t seed, long k, long & s, long & cut) { StreamSpec tmp; while (g_cum.back() <= k) { GenStream(seed, (long)g_cum.size() - 1, tmp); g_cum.push_back(g_cum.back() + (long)tmp.bytes.size() + 1); } s = (long)(std::upper_bound(g_cum.begin(), g_cum.end(), k) - g_cum.begin()) - 1; cut = k - g_cum[s]; }
 
-struct CutResult { bool bad; CutResult() : bad(false) {} };
-// closeStyle: 0 = close, 1 = half-close (shutdown of the write side only).  chunkMax: bytes per write
-static bool RunCut(const StreamSpec & S, size_t cut, int closeStyle, const std::string & tag, bool doStats)
+static long g_lastQueuedKnown = 0, g_lastLateMarked = 0;   // evidence of the last RunCut(), for the regress witnesses
+// what else happens around the cut
+struct CutPlan {
+   int closeStyle;          // 0 = close, 1 = half-close (shutdown of the write side only)
+   bool pause;              // witness 0 (slow: 2 KB socket buffers) stops reading after pauseAt bytes of the prefix; a remaining session ("filler")
+   size_t pauseAt;          //   then uploads a node of bigBytes so that the server->witness connection backs up and whole Messages wait in the
+   size_t bigBytes;         //   witness session's outgoing queue while the rest of the prefix and the cut happen; it resumes and drains before the audit
+   std::string lateName;    // a remaining session creates this node after the prefix was written ("" = none) ...
+   bool lateByFiller;       // ... the filler (if the stream has one) or witness 0
+   CutPlan() : closeStyle(0), pause(false), pauseAt(0), bigBytes(0), lateByFiller(false) {}
+   explicit CutPlan(int style) : closeStyle(style), pause(false), pauseAt(0), bigBytes(0), lateByFiller(false) {}
+};
+static bool RunCut(const StreamSpec & S, size_t cut, const CutPlan & P, const std::string & tag, bool doStats)
 {
-   bool bad = false;
-   std::string ctx = vh::fmt("cut after %zu of %zu bytes, close style %d | ", cut, S.bytes.size(), closeStyle) + S.desc;
+   bool bad = false; const int closeStyle = P.closeStyle;
+   std::string ctx = vh::fmt("cut after %zu of %zu bytes, close style %d", cut, S.bytes.size(), closeStyle) + (P.pause ? vh::fmt(", witness 0 paused after %zu bytes behind a %zu-byte node", P.pauseAt, P.bigBytes) : std::string()) + (P.lateName.empty() ? std::string() : ", late node " + P.lateName) + " | " + S.desc;
    #define CUTFAIL(key, what) do { if (!bad) { bad = true; vh::viol(tag + "|" + (key), std::string(what) + " | " + ctx); } } while (0)
    Bench B;
    std::vector<Client *> wit; std::map<uint32, std::vector<std::string> > subs; subs[B.insp->GetSessionID()] = std::vector<std::string>();
    for (size_t i = 0; i < S.wit.size(); i++) {
-      const WitnessSpec & ws = S.wit[i]; Options o; o.reflectToSelf = ws.reflect; o.handshake = false; Client * w = B.AddClient(o); wit.push_back(w);
+      const WitnessSpec & ws = S.wit[i]; Options o; o.reflectToSelf = ws.reflect; o.handshake = false; o.slow = ws.slow; Client * w = B.AddClient(o); wit.push_back(w);
       MessageRef sd = GetMessageFromPool(PR_COMMAND_SETDATA); (void)sd()->AddMessage("mine", Payload2(7, "w", (int32)i));
       if (ws.nodeA) (void)sd()->AddMessage("a", Payload2(7, "w", 1)); if (ws.nodeB) (void)sd()->AddMessage("b", Payload2(7, "w", 2)); if (ws.nodeAX) (void)sd()->AddMessage("a/x", Payload2(7, "w", 3)); if (ws.idx) (void)sd()->AddMessage("idx", Payload2(7, "w", 4));
+      for (size_t j = 0; j < ws.meta.size(); j++) (void)sd()->AddMessage(ws.meta[j].c_str(), Payload2(7, "w", 5 + (int32)j));
       w->Send(sd);
       if (ws.idx) { MessageRef io = GetMessageFromPool(PR_COMMAND_INSERTORDEREDDATA); (void)io()->AddString(PR_NAME_KEYS, "idx"); for (int j = 0; j < 2; j++) (void)io()->AddMessage("", Payload(8, "i", j)); w->Send(io); }
       MessageRef sp = GetMessageFromPool(PR_COMMAND_SETPARAMETERS); for (size_t j = 0; j < ws.subs.size(); j++) (void)sp()->AddBool(("SUBSCRIBE:" + ws.subs[j]).c_str(), true);
       if (ws.maxItems) (void)sp()->AddInt32(PR_NAME_MAX_UPDATE_MESSAGE_ITEMS, ws.maxItems);
       w->Send(sp); subs[w->id] = ws.subs;
    }
+   Client * filler = NULL; if (S.wit[0].slow) { Options o; o.handshake = false; filler = B.AddClient(o); subs[filler->id] = std::vector<std::string>(); }   // a remaining session that acts while the leaver is connected
+   std::set<std::string> lateCreated;
    B.Settle();
    TreeSnap s0; if (!B.insp->Snapshot(s0)) Abort("inspector not attached during setup"); std::vector<std::string> p0; for (size_t i = 0; i < wit.size(); i++) p0.push_back(B.ParamSnap(wit[i]));
    const uint32 nSess0 = B.NumSessions();
@@ -329,8 +357,22 @@ static bool RunCut(const StreamSpec & S, size_t cut, int closeStyle, const std::
 
    // ---- the leaver: a raw socket, the harness writes the prefix itself
    RawPeer * L = B.AddRaw(); B.Settle();
-   size_t off = 0; while (off < cut) { size_t n = std::min(cut - off, (size_t)(R(5) == 0 ? 700 : 1 + R(200))); size_t w = L->Write(S.bytes.data() + off, n); off += w; B.Settle(2); if (w == 0 && !B.SessionAttached(L->id)) break; }
-   B.Settle();
+   size_t off = 0; const bool pausing = P.pause && filler != NULL;
+   for (int phase = pausing ? 0 : 1; phase < 2; phase++) {
+      const size_t upto = (phase == 0) ? std::min(P.pauseAt, cut) : cut;
+      while (off < upto) { size_t n = std::min(upto - off, (size_t)(R(5) == 0 ? 700 : 1 + R(200))); size_t w = L->Write(S.bytes.data() + off, n); off += w; B.Settle(2); if (w == 0 && !B.SessionAttached(L->id)) break; }
+      B.Settle();
+      if (phase == 0) {   // witness 0 knows everything so far; now it stops reading and its connection is filled up
+         wit[0]->readPaused = true;
+         MessageRef sd = GetMessageFromPool(PR_COMMAND_SETDATA); MessageRef pl = Payload2(7, "w", 8); (void)pl()->AddString("pad", std::string(P.bigBytes, 'p').c_str()); (void)sd()->AddMessage("big", pl); filler->Send(sd); B.Settle();
+         lateCreated.insert(filler->root + "/big");
+      }
+   }
+   if (!P.lateName.empty()) {   // a remaining session creates a node (with a metacharacter name, mostly) after the leaver's subscriptions were placed
+      Client * who = (filler && P.lateByFiller) ? filler : wit[0];
+      MessageRef sd = GetMessageFromPool(PR_COMMAND_SETDATA); (void)sd()->AddMessage(P.lateName.c_str(), Payload2(7, "w", 9)); who->Send(sd); B.Settle();
+      lateCreated.insert(who->root + "/" + P.lateName);
+   }
    if (off != cut) { if (B.SessionAttached(L->id)) Abort("could not write the prefix although the session is attached"); CUTFAIL("session_dropped_before_cut", vh::fmt("the server dropped the leaver after %zu bytes of a well-formed stream", off)); }
    size_t complete = 0; while (complete + 1 < S.starts.size() && S.starts[complete + 1] <= cut) complete++;
    TreeSnap pre; if (!B.insp->Snapshot(pre)) { CUTFAIL("inspector_detached", "the leaver's commands detached the inspector session"); return false; }
@@ -353,9 +395,19 @@ static bool RunCut(const StreamSpec & S, size_t cut, int closeStyle, const std::
       if (fails) { failNodes++; if (!covered) failUncovered++; }
    }
 
+   // escaped-literal clauses in force, nodes with metacharacter names that stay behind, the leaver's mark on the late node
+   long escapedNow = 0; for (size_t i = 0; i < S.subsAfter[complete].size(); i++) if (S.subsAfter[complete][i].find('\\') != std::string::npos) escapedNow++;
+   long metaNodes = 0, lateMarked = 0; for (TreeSnap::const_iterator it = pre.begin(); it != pre.end(); ++it) { if (Under(it->first, L->root)) continue; if (HasMeta(it->first.substr(it->first.rfind('/') + 1))) metaNodes++; if (lateCreated.count(it->first) && it->second.subs.count(L->id)) lateMarked++; }
+   // evidence that the backlog state was reached: updates of leaver nodes the paused witness already knows, waiting as whole Messages in its session's queue
+   long queuedKnown = 0; uint32 qlen = 0;
+   if (pausing) { AbstractMessageIOGateway * gw = wit[0]->session()->GetGateway()(); if (gw) { Queue<MessageRef> & q = gw->GetOutgoingMessageQueue(); qlen = q.GetNumItems();
+      for (uint32 i = 0; i < qlen; i++) if (q[i]() && q[i]()->what == PR_RESULT_DATAITEMS) for (MessageFieldNameIterator it = q[i]()->GetFieldNameIterator(B_MESSAGE_TYPE); it.HasData(); it++) if (Under(it.GetFieldName()(), L->root) && wit[0]->mirror.count(it.GetFieldName()())) queuedKnown++; } }
+
+   g_lastQueuedKnown = queuedKnown; g_lastLateMarked = lateMarked;
    // ---- the cut
    if (closeStyle == 1) L->HalfClose(); else L->Close();
    B.Settle();
+   if (pausing) { wit[0]->readPaused = false; B.Settle(); }     // the slow reader resumes and drains completely before the audit
 
    // ---- oracle at the quiescent point
    TreeSnap s1; if (!B.insp->Snapshot(s1)) { CUTFAIL("inspector_detached", "the inspector session was detached when the leaver departed"); return false; }
@@ -366,7 +418,16 @@ static bool RunCut(const StreamSpec & S, size_t cut, int closeStyle, const std::
    { long checked = 0; std::string inv = CheckSubscriberInvariant(s1, subs, std::set<uint32>(), &checked); if (doStats) vh::stat("invariant_node_checks", checked); if (!inv.empty()) CUTFAIL("subscriber_table_mismatch", inv); }
    for (size_t i = 0; i < wit.size(); i++) for (std::map<std::string, std::string>::const_iterator it = wit[i]->mirror.begin(); it != wit[i]->mirror.end(); ++it) if (Under(it->first, L->root)) { CUTFAIL("witness_not_told", "witness " + wit[i]->root + " (subscriptions " + Join(S.wit[i].subs, " ") + ") was shown " + it->first + " and never told that it vanished"); break; }
    for (size_t i = 0; i < wit.size(); i++) { long own = CountUnder(s1, wit[i]->root, false); uint32 cnt = B.insp->NodeCountOf(*wit[i]->session()); if ((long)cnt != own) CUTFAIL("node_count", vh::fmt("%s owns %ld nodes, its node counter says %u", wit[i]->root.c_str(), own, cnt)); }
-   { std::vector<std::string> d = DiffSnap(s0, s1); if (!d.empty()) CUTFAIL("remaining_state_differs", "tree differs from the snapshot taken before the leaver joined: " + Join(d, "; ")); }
+   // each witness's replica (built from DATAITEMS / REMOVED_DATAITEMS only) == the tree restricted to its subscriptions (own subtree left out on both sides)
+   for (size_t i = 0; i < wit.size() && !bad; i++) {
+      std::map<std::string, std::string> want, have;
+      for (TreeSnap::const_iterator it = s1.begin(); it != s1.end(); ++it) { if (Under(it->first, wit[i]->root)) continue; for (size_t j = 0; j < S.wit[i].subs.size(); j++) if (RefPathMatch(S.wit[i].subs[j], it->first)) { want[it->first] = it->second.payload; break; } }
+      for (std::map<std::string, std::string>::const_iterator it = wit[i]->mirror.begin(); it != wit[i]->mirror.end(); ++it) if (!Under(it->first, wit[i]->root)) have.insert(*it);
+      if (doStats) vh::stat("replica_entries_compared", (long)want.size());
+      if (want != have) { std::string why; for (std::map<std::string, std::string>::const_iterator it = have.begin(); it != have.end(); ++it) { if (!want.count(it->first)) why += " stale:" + it->first; else if (want[it->first] != it->second) why += " outdated:" + it->first; } for (std::map<std::string, std::string>::const_iterator it = want.begin(); it != want.end(); ++it) if (!have.count(it->first)) why += " missing:" + it->first;
+         CUTFAIL("witness_replica_differs", "replica of witness " + wit[i]->root + " (subscriptions " + Join(S.wit[i].subs, " ") + ") differs from the tree:" + why); }
+   }
+   { std::vector<std::string> d0 = DiffSnap(s0, s1), d; for (size_t i = 0; i < d0.size(); i++) if (d0[i].compare(0, 14, "node created: ") != 0 || !lateCreated.count(d0[i].substr(14))) d.push_back(d0[i]); if (!d.empty()) CUTFAIL("remaining_state_differs", "tree differs from the snapshot taken before the leaver joined: " + Join(d, "; ")); }
    if (B.NumSessions() != nSess0) CUTFAIL("session_count", vh::fmt("%u sessions attached, %u before the leaver joined", B.NumSessions(), nSess0));
    for (size_t i = 0; i < wit.size() && !bad; i++) {
       if (!wit[i]->alive) { CUTFAIL("witness_disconnected", wit[i]->root); break; }
@@ -382,6 +443,9 @@ static bool RunCut(const StreamSpec & S, size_t cut, int closeStyle, const std::
       if (cut == 0) vh::stat("streams"); if (cut == S.bytes.size()) vh::stat("streams_completed");
       vh::stat("leaver_nodes_before_cut", nodesBefore); if (nodesBefore > 1) vh::stat("cuts_with_leaver_nodes"); if (marksBefore) vh::stat("cuts_with_leaver_marks_on_nodes"); vh::stat("leaver_marks_before_cut", marksBefore);
       if (cachedBefore > 0) vh::stat("cuts_with_leaver_in_cached_tables");
+      vh::stat("cut_escaped_literal_clauses", escapedNow); if (escapedNow) vh::stat("cuts_with_escaped_literal_clause"); vh::stat("cut_metachar_nodes_at_departure", metaNodes);
+      if (lateMarked) vh::stat("cuts_with_leaver_mark_on_late_node"); if (!lateCreated.empty()) vh::stat("cuts_with_late_node");
+      if (pausing) { vh::stat("cuts_with_paused_witness"); vh::statmax("max_backlog_queue_len", (long)qlen); if (qlen) vh::stat("cuts_with_backlog_in_session_queue"); vh::stat("updates_queued_behind_backlog_at_removal", queuedKnown); if (queuedKnown) vh::stat("cuts_with_update_queued_behind_backlog"); }
       vh::stat("cut_leaver_filtered_subscriptions", filteredSubs); if (filteredSubs) vh::stat("cuts_with_leaver_filtered_subscriptions");
       vh::stat("cut_nodes_matching_path_but_failing_filter", failNodes); vh::stat("cut_nodes_failing_filter_not_otherwise_covered", failUncovered); if (failUncovered) vh::stat("cuts_with_marked_node_failing_every_leaver_filter");
       vh::stat("paths_shown_to_witnesses", shown); if (shown) vh::stat("cuts_with_witness_shown_leaver_paths");
@@ -398,8 +462,14 @@ static void RunCutCase(long k, uint64_t seed)
    long s, cut; Locate(seed, k, s, cut);
    if (g_stream.index != s) GenStream(seed, s, g_stream);
    g = vh::Rng(vh::case_seed(seed, STREAM_CUTCASE, (uint64_t)k));
-   const int closeStyle = (R(4) == 0) ? 1 : 0;
-   RunCut(g_stream, (size_t)cut, closeStyle, "cut", true);
+   CutPlan P((R(4) == 0) ? 1 : 0);
+   if (g_stream.wit[0].slow && R(2)) { P.pause = true; P.bigBytes = 6000 + R(34000);
+      std::vector<size_t> fb; for (size_t i = 0; i < g_stream.starts.size(); i++) if ((long)g_stream.starts[i] <= cut) fb.push_back(g_stream.starts[i]);
+      P.pauseAt = (R(4) != 0) ? fb[R((uint32)fb.size())] : (size_t)R((uint32)cut + 1);
+      // often: stop reading right before a frame that updates a node the witness already knows, when the cut lies behind that frame
+      for (size_t i = 0; i < g_stream.updFrames.size(); i++) { const size_t u = g_stream.updFrames[i]; if ((long)g_stream.starts[u + 1] <= cut && R(2)) { P.pauseAt = g_stream.starts[u]; break; } } }
+   if (R(3) != 0) { P.lateName = kMetaLate[R((uint32)NEL(kMetaLate))]; P.lateByFiller = R(2); }
+   RunCut(g_stream, (size_t)cut, P, "cut", true);
    vh::distinct(vh::fnvs(g_stream.bytes, (uint64_t)cut * 1000003ULL + 7), cut > 0);
    if (cut == 0 && vh::want_sample()) vh::sample(g_stream.desc);
 }
@@ -484,7 +554,7 @@ static void RegressDeparture()
    std::set<size_t> cuts; cuts.insert(0); cuts.insert(3); cuts.insert(8); cuts.insert(9); cuts.insert(100); cuts.insert(S.bytes.size());
    for (size_t i = 0; i < S.starts.size(); i++) for (int d = -1; d <= 9; d += (d < 1 ? 1 : 8)) { long c = (long)S.starts[i] + d; if (c >= 0 && c <= (long)S.bytes.size()) cuts.insert((size_t)c); }
    g = vh::Rng(99);
-   for (std::set<size_t>::const_iterator it = cuts.begin(); it != cuts.end(); ++it) for (int style = 0; style < 2; style++) { RunCut(S, *it, style, "regress|cut", false); vh::stat("regress_cuts"); }
+   for (std::set<size_t>::const_iterator it = cuts.begin(); it != cuts.end(); ++it) for (int style = 0; style < 2; style++) { RunCut(S, *it, CutPlan(style), "regress|cut", false); vh::stat("regress_cuts"); }
    // fixed witnesses with content filters on the leaver's subscriptions (marks are by path; teardown must not consult the filter):
    // the witness owns mine{w=0,s=y} a{w=1,s=x} b{w=2,s=y}; the leaver subscribes with a filter that some of them fail
    { struct Step { const char * pat; int kind; int32 iv; const char * sv; };
@@ -501,7 +571,33 @@ static void RegressDeparture()
            if (std::find(cur.begin(), cur.end(), std::string(x.pat)) == cur.end()) cur.push_back(x.pat); if (f.kind) curF[x.pat] = f; else curF.erase(x.pat);
            F.subsAfter.push_back(cur); F.filtAfter.push_back(curF); dd += std::string(" | SUBSCRIBE ") + x.pat + ShowFilter(f, "w"); }
         F.bytes = FrameStream(F.msgs, &F.starts); F.desc = vh::fmt("fixed filtered stream %zu:", sc) + dd;
-        for (size_t fi = 2; fi < F.starts.size(); fi++) for (int style = 0; style < 2; style++) { RunCut(F, F.starts[fi], style, "regress|cut", false); if (fi + 1 < F.starts.size()) RunCut(F, F.starts[fi] + 11, style, "regress|cut", false); vh::stat("regress_filtered_cuts"); } } }
+        for (size_t fi = 2; fi < F.starts.size(); fi++) for (int style = 0; style < 2; style++) { RunCut(F, F.starts[fi], CutPlan(style), "regress|cut", false); if (fi + 1 < F.starts.size()) RunCut(F, F.starts[fi] + 11, CutPlan(style), "regress|cut", false); vh::stat("regress_filtered_cuts"); } } }
+   // fixed witnesses: (1) escaped-literal clauses (direct child lookup must unescape): the node exists at subscribe time / is created afterwards by
+   // a remaining session; (2) a backed-up subscriber: the witness knows node a, stops reading, a 30 KB node fills its connection, the leaver updates a
+   // and departs while that update waits in the witness session's outgoing queue; the witness resumes and must be told that a vanished
+   { struct Esc { const char * sub; const char * setupNode; const char * lateNode; };
+     static const Esc esc[] = { {"/*/*/we\\*rd", "we*rd", ""}, {"st\\*r", "", "st*r"}, {"pa\\(ren\\),b", "", "pa(ren)"}, {"/*/*/a/we\\*rd", "a/we*rd", ""}, {"back\\\\slash", "", "back\\slash"}, {"com\\,ma", "com,ma", "b2"} };
+     for (size_t e = 0; e < NEL(esc); e++) for (int style = 0; style < 2; style++) {
+        StreamSpec F; F.index = 2000 + (long)e; WitnessSpec w; w.subs.push_back("/*/*/*"); w.nodeA = w.nodeB = true; if (esc[e].setupNode[0]) w.meta.push_back(esc[e].setupNode); F.wit.push_back(w);
+        std::vector<std::string> cur; std::map<std::string, FilterSpec> noF; F.subsAfter.push_back(cur); F.filtAfter.push_back(noF);
+        MessageRef sp = GetMessageFromPool(PR_COMMAND_SETPARAMETERS); PutSub(*sp(), esc[e].sub, FilterSpec(), "w"); F.msgs.push_back(sp); cur.push_back(esc[e].sub); F.subsAfter.push_back(cur); F.filtAfter.push_back(noF);
+        MessageRef sd = GetMessageFromPool(PR_COMMAND_SETDATA); (void)sd()->AddMessage("a", Payload(7, "v", 5)); F.msgs.push_back(sd); F.subsAfter.push_back(cur); F.filtAfter.push_back(noF);
+        F.bytes = FrameStream(F.msgs, &F.starts); F.desc = std::string("fixed escaped-clause stream: SUBSCRIBE ") + esc[e].sub + " | SETDATA a";
+        CutPlan P(style); P.lateName = esc[e].lateNode; RunCut(F, F.bytes.size(), P, "regress|cut", false); vh::stat("regress_escaped_cuts");
+        if (esc[e].lateNode[0] && std::string(esc[e].lateNode) != "b2" && g_lastLateMarked < 1) vh::viol("regress|cut|late_node_not_marked", std::string("a node created after SUBSCRIBE:") + esc[e].sub + " that the subscription names did not get the subscriber's mark");
+     } }
+   { for (int style = 0; style < 2; style++) for (int variant = 0; variant < 2; variant++) {
+        StreamSpec F; F.index = 3000; WitnessSpec w; w.subs.push_back("/*/*/*"); w.nodeA = true; w.slow = true; F.wit.push_back(w);
+        std::vector<std::string> cur; std::map<std::string, FilterSpec> noF; F.subsAfter.push_back(cur); F.filtAfter.push_back(noF);
+        MessageRef s1 = GetMessageFromPool(PR_COMMAND_SETDATA); (void)s1()->AddMessage("a", Payload(7, "v", 1)); (void)s1()->AddMessage("b", Payload(7, "v", 1)); F.msgs.push_back(s1); F.subsAfter.push_back(cur); F.filtAfter.push_back(noF);
+        MessageRef s2 = GetMessageFromPool(PR_COMMAND_SETDATA); (void)s2()->AddMessage("a", Payload(7, "v", 2)); F.msgs.push_back(s2); F.subsAfter.push_back(cur); F.filtAfter.push_back(noF);
+        if (variant == 1) { MessageRef rd = GetMessageFromPool(PR_COMMAND_REMOVEDATA); (void)rd()->AddString(PR_NAME_KEYS, "a"); F.msgs.push_back(rd); F.subsAfter.push_back(cur); F.filtAfter.push_back(noF); }   // removed by command, then departure
+        F.bytes = FrameStream(F.msgs, &F.starts); F.desc = std::string("fixed backlog stream: SETDATA a b | UPDATE a") + (variant ? " | REMOVEDATA a" : "");
+        CutPlan P(style); P.pause = true; P.pauseAt = F.starts[1]; P.bigBytes = 30000; RunCut(F, variant ? F.starts[2] : F.bytes.size(), P, "regress|cut", false);
+        if (g_lastQueuedKnown < 1) Abort("backlog witness: no update of a known node was waiting in the paused witness's session queue at the cut");
+        if (variant == 1) RunCut(F, F.bytes.size(), P, "regress|cut", false);
+        vh::stat("regress_backlog_cuts");
+     } }
    // the departure oracle must fire when the session has NOT departed: run the post-cut checks' core on a connected leaver
    { Bench B; Client * w = B.AddClient(); MessageRef sp = GetMessageFromPool(PR_COMMAND_SETPARAMETERS); (void)sp()->AddBool("SUBSCRIBE:/*/*/*", true); w->Send(sp); MessageRef sd0 = GetMessageFromPool(PR_COMMAND_SETDATA); (void)sd0()->AddMessage("b", Payload(1, "v", 1)); w->Send(sd0); B.Settle();
      RawPeer * L = B.AddRaw(); B.Settle(); size_t off = 0; while (off < S.bytes.size()) { off += L->Write(S.bytes.data() + off, S.bytes.size() - off); B.Settle(2); } B.Settle();
